@@ -10,9 +10,14 @@ NOTE_COMMON = ("Trusted: Lean 4.33 kernel with axioms propext/Classical.choice/Q
                "rounding modes; third-party libraries, Rust std, cffi, md5, OS are trusted. ")
 
 CLAIMED = {
+    "C05": dict(
+        text="Lean theorems on Inv sketches: intersection_size = (|A∩B|, |A∪B|), count_common = |A∩B| independent of the swap-by-size, Jaccard = |A∩B|/max(1,|A∪B|) (in Q and as the exact double) with range/self/disjoint/symmetry, the num path restricted to the bottom-n of the union, the angular merge loop = Σ a_h b_h with both norms, similarity dispatch, raw containment = common/|A| with 0<bias<=1, corrected>=raw, clamped<=1, max/avg containment symmetric, with the downsample flag containment = containment of the pair downsampled to the common scaled, check_compatible ⇔ same k/molecule/seed/max_hash and every comparison of incompatible sketches (containment functions with empty operands and the comparison dataclasses included) is an error. Tied to the code by the cmp stream (bit-exact integers and ratios, independent set/Fraction oracle) and by a translator re-reading check_compatible, the Jaccard expression and the statement sequence of the containment functions.",
+        note=NOTE_COMMON + "Floats tier 2: sqrt/acos of the angular similarity and the bias factor (1-1/s)^(n*s) are computed with the runtime Float and compared with relative tolerance 1e-12, not proved; as a consequence the self-similarity of the angular measure is 1 only up to 1.3e-8 (known finding C05-F2, shown by the oracle on the real code; the theorem angular_self_parts proves the cosine fed to the float tail is exactly 1). u64 overflow of the sums of squared abundances assumed absent in the theorems (the model wraps like the release build). scaled <= 2^31. Two different non-zero num values are outside the statement (similarity answers, jaccard refuses).",
+        technique="Lean 4 loop-invariant proofs on list models + exact binary64 model for ratios + model/impl correspondence over generated sketch pairs with an independent Fraction/set oracle",
+        ref="DESIGN.md section 5 C05"),
     "C18": dict(
-        text="Lean theorems over a model of LCA_Database and the lineage utilities: (history_invariant / index_is_relation) for every history of accepted and refused insertions, downsamplings and JSON save/load round trips (including insertions after a load) the inverted index is exactly the relation 'signature idx was inserted and holds h at the database's scaled'; get_lineage_assignments / get_identifiers_for_hashval return exactly the lineages / identifiers of the holders (assignments_exact, identifiers_exact); _signatures, including its 50-hash batching, rebuilds exactly the inserted sketches that are non-empty (reconstruct, reconstruct_exact); JSON save/load preserves every table and answer up to padding lineages with empty names (json_roundtrip, json_lineage_same_taxa); find_lca(build_tree(L)) is the unique solution of the LCA specification, independent of order and duplicates (find_lca_spec, lca_spec_unique, find_lca_set_only, the two prose halves lca_deepest_if_no_disagreement / lca_first_disagreement); summarize credits each hash to its LCA and every ancestor exactly once (aggregate_once, counts_eq); classify and pop_to_rank against their specs. Tied to the code by the lca correspondence stream (in-memory, JSON, SQLite forms, downsample_scaled, summarize/classify, both find_lca implementations) with an independent relation-based oracle, and by translator items (taxlist, NCBI_RANKS, SQL column orders, downsample comparison/threshold, batch constant, threshold comparisons, AST identity of the two find_lca/build_tree implementations).",
-        note=NOTE_COMMON + "Not proved: equivalence of the SQLite form (modelled and compared only; four of its behaviours are known findings), classify --majority tie-breaking, md5-based default identifiers of unnamed signatures. minhash.downsample is abstracted as 'hashes <= max_hash' (C01/C03). LCAs are computed on the taxa a lineage names (empty names skipped). downsample_scaled now equals direct insertion at the coarser scaled (downsample_entry, downsample_commutes; D9 repaired). Known findings: D11 (sketches empty at the database's scaled counted but never yielded), C18.3-C18.5 (SQLite form: downsample_scaled is a no-op on the answers, lineages looked up by name instead of identifier, identifiers re-derived from names). Fixed in /repo: D9, C18.6, C18.7, C18.8.",
+        text="Lean theorems over a model of LCA_Database and the lineage utilities: (history_invariant / index_is_relation) for every history of accepted and refused insertions, downsamplings and JSON save/load round trips (including insertions after a load) the inverted index is exactly the relation 'signature idx was inserted and holds h at the database's scaled'; get_lineage_assignments / get_identifiers_for_hashval return exactly the lineages / identifiers of the holders (assignments_exact, identifiers_exact); _signatures, including its 50-hash batching, rebuilds every inserted sketch exactly, empty ones included, with its name (reconstruct, reconstruct_exact, signatures_named, signatures_count); JSON save/load preserves every table and answer up to padding lineages with empty names (json_roundtrip, json_lineage_same_taxa); find_lca(build_tree(L)) is the unique solution of the LCA specification, independent of order and duplicates (find_lca_spec, lca_spec_unique, find_lca_set_only, the two prose halves lca_deepest_if_no_disagreement / lca_first_disagreement); summarize credits each hash to its LCA and every ancestor exactly once (aggregate_once, counts_eq); classify and pop_to_rank against their specs. Tied to the code by the lca correspondence stream (in-memory, JSON, SQLite forms, downsample_scaled, summarize/classify, both find_lca implementations) with an independent relation-based oracle, and by translator items (taxlist, NCBI_RANKS, SQL column orders, downsample comparison/threshold, batch constant, threshold comparisons, AST identity of the two find_lca/build_tree implementations).",
+        note=NOTE_COMMON + "Not proved: equivalence of the SQLite form (modelled and compared only; four of its behaviours are known findings), classify --majority tie-breaking, md5-based default identifiers of unnamed signatures. minhash.downsample is abstracted as 'hashes <= max_hash' (C01/C03). LCAs are computed on the taxa a lineage names (empty names skipped). downsample_scaled now equals direct insertion at the coarser scaled (downsample_entry, downsample_commutes; D9 repaired). Known findings: C18.3-C18.5 (SQLite form: downsample_scaled is a no-op on the answers, lineages looked up by name instead of identifier, identifiers re-derived from names). Fixed in /repo: D9, D11, C18.6, C18.7, C18.8.",
         technique="Lean 4 invariant proof over all insertion/downsampling histories + trie induction for find_lca + sum bookkeeping for summarize; model/impl correspondence over generated histories with a relation oracle; translator for rank tables and comparison shapes",
         ref="DESIGN.md section 5 C18"),
     "C20": dict(
@@ -43,7 +48,7 @@ CLAIMED = {
 }
 
 # checks that exist but are being re-synchronised with a /repo fix: not claimed until green again
-PENDING = {"C18"}
+PENDING = set()
 
 
 def main():
